@@ -14,7 +14,7 @@ Inductive c13case :=
 
 Definition check_c13 (c : c13case) : list nat :=
   match c with
-  | C13Step cc => (if agrees cc then [] else [1%nat]) ++ reasons_in [3; 4; 5; 6; 7; 8; 10; 12]%nat cc ++
+  | C13Step cc => (if agrees cc then [] else [1%nat]) ++ reasons_in [3; 4; 5; 6; 7; 8; 10; 12; 13]%nat cc ++
                   (* reason 11: the scenario could not be run to its end: a goroutine of the client waits for a lock for ever
                      (self-deadlock under a peer-chosen envelope sequence): every later operation on that call hangs *)
                   (match cc with CClientWedged _ _ _ => [11%nat] | _ => [] end)
